@@ -141,6 +141,11 @@ func JsonListReader(list []interface{}) node.Node {
 					if key, err = node.NewValues(r.Meta.KeyMeta(), keyData...); err != nil {
 						return nil, nil, err
 					}
+					for i, k := range key {
+						if k == nil {
+							return nil, nil, fmt.Errorf("%w. key '%s' missing from entry of list %s", fc.BadRequestError, r.Meta.KeyMeta()[i].Ident(), r.Meta.Ident())
+						}
+					}
 				}
 				return JsonContainerReader(container), key, nil
 			}
